@@ -111,6 +111,55 @@ def features(case) -> list[str]:
     return sorted(f)
 
 
+def pruned_features(case, d0, d1) -> list[str]:
+    """For a LessThan directly over a Min whose (Max) children have different durations: which valid-looking options
+    did the passes remove?  `longer` = only options of children that last longer than the shortest child (known
+    finding C20-F9: the pass pushes the Min's merged bounds, computed with the SHORTEST duration, to every child);
+    `shortest` = an option of the shortest child itself, which the merged bounds describe exactly."""
+    if not d0 or not d1 or d0.get("err") or d1.get("err"):
+        return []
+
+    def placed(d):
+        out = set()
+        for v in d.get("vars", []):
+            nm = v["name"]
+            if "_placed_at_" in nm:
+                task, rest = nm.split("_placed_at_", 1)
+                out.add((task, rest.split("_")[0]))
+        return out
+
+    gone = placed(d0) - placed(d1)
+    tags = set()
+    for n in gen.walk(case["tree"]):
+        if n["t"] != "lt" or len(n.get("ch", [])) != 2:
+            continue
+        for side, c in enumerate(n["ch"]):
+            if c["t"] != "min":
+                continue
+            kids = [k for k in c["ch"] if k["t"] in ("max", "choose")]
+            durs = []
+            for k in kids:
+                ls = [x for x in gen.walk(k) if x["t"] == "choose"]
+                if ls:
+                    durs.append(min(x["dur"] for x in ls))
+            if len(set(durs)) < 2:
+                continue
+            tags.add("lt-over-min-of-mixed-durations")
+            other = [x for x in gen.walk(n["ch"][1 - side]) if x["t"] == "choose"]
+            if not other:
+                continue
+            for k in kids:
+                for x in gen.walk(k):
+                    if x["t"] != "choose" or (x["name"], str(x["start"])) not in gone:
+                        continue
+                    ok = (x["start"] + x["dur"] <= max(o["start"] for o in other)) if side == 0 else (x["start"] >= min(o["start"] + o["dur"] for o in other))
+                    if ok:
+                        tags.add("pruned:shortest-child-of-min" if x["dur"] == min(durs) else "pruned:longer-child-of-min")
+    if "pruned:shortest-child-of-min" in tags:
+        tags.discard("pruned:longer-child-of-min")
+    return sorted(tags)
+
+
 def pclass(problem: str) -> str:
     """Problem class: capacity problems carry partition / time numbers, drop them."""
     return "capacity:oversubscribed" if problem.startswith("capacity:") else problem
@@ -376,6 +425,7 @@ class Batch:
             # pruning passes may never lose utility with respect to the unpruned model
             if ps != 0 and not (ps & 4) and cid in base_opt and base_opt[cid][0] == "optimal":
                 if status != "optimal" or opt < base_opt[cid][1]:
+                    feats = sorted(set(feats) | set(pruned_features(case, dumps.get(f"{cid}/p0"), dumps.get(f"{cid}/p{ps}"))))
                     self.findings.append((signatures(["optimum:decreases-with-passes"], feats, ps)[0],
                                           {"case": case, "passes": ps, "problems": ["optimum:decreases-with-passes"], "without": base_opt[cid][1], "with": opt}))
             # the same tree with and without passes
@@ -403,6 +453,19 @@ def gen_cases(rng, n, only=None):
     return out
 
 
+def _file_corpus():
+    """Minimised past failures kept as JSON (harness/corpus/strl/*.json), run with the fixed corpus."""
+    import os
+
+    d_ = os.path.join(os.path.dirname(os.path.dirname(os.path.abspath(__file__))), "corpus", "strl")
+    out = []
+    if os.path.isdir(d_):
+        for fn in sorted(os.listdir(d_)):
+            if fn.endswith(".json"):
+                out.append((fn[:-5], json.load(open(os.path.join(d_, fn)))))
+    return out
+
+
 def run(chk: common.Check):
     broken = chk.lean_obligations()
     t0 = time.time()
@@ -411,7 +474,7 @@ def run(chk: common.Check):
     quick = chk.tier == "quick"
     b = Batch(chk, use_lean=not any(x.startswith("lake-build") for x in broken))
     # 1. corpus, every subset of the two pruning passes
-    b.run(rng.sub("corpus"), [(f"corpus-{n}", c) for n, c in CORPUS], chk.tier, passes_list=(0, 1, 2, 3))
+    b.run(rng.sub("corpus"), [(f"corpus-{n}", c) for n, c in CORPUS + _file_corpus()], chk.tier, passes_list=(0, 1, 2, 3))
     # 2. random trees, no passes: full correspondence + oracle
     n_rand = 240 if quick else 3000
     for k in range(0, n_rand, 200):
@@ -435,6 +498,13 @@ def run(chk: common.Check):
         cs = [(f"purgefam-{k}-{i}", gen.purge_family(fr.sub(str(i)))) for i in range(min(100, n_pf - k))]
         b.run(rng.sub(f"pfamrun{k}"), cs, chk.tier, passes_list=(0, 2, 3))
         chk.count("family:max-options-of-different-sizes-under-contention", len(cs))
+    # 6. LessThan over Min nodes whose children have different durations (bounds pushed down by the critical-path pass)
+    n_lm = 30 if quick else 300
+    for k in range(0, n_lm, 100):
+        fr = rng.sub(f"lmfam{k}")
+        cs = [(f"ltminfam-{k}-{i}", gen.lt_min_family(fr.sub(str(i)))) for i in range(min(100, n_lm - k))]
+        b.run(rng.sub(f"lmfamrun{k}"), cs, chk.tier, passes_list=(0, 1, 3))
+        chk.count("family:lt-over-min-of-mixed-durations", len(cs))
     for sig, rep in b.findings:
         chk.violation(sig, rep)
     chk.extra["suite_s"] = round(time.time() - t0, 1)
